@@ -48,6 +48,10 @@ func (f *Gethash) Call(s *slip.Scope, args slip.List, depth int) (result slip.Ob
 	if !ok {
 		slip.TypePanic(s, depth, "hash-table", args[1], "hash-table")
 	}
+	if !ht.Hashable(args[0]) {
+		// A key that is only eql to itself and can not be in the table.
+		return slip.Values{nil, nil}
+	}
 	v, has := ht[ht.Key(args[0])]
 	var ho slip.Object
 	if has {
@@ -62,6 +66,9 @@ func (f *Gethash) Place(s *slip.Scope, args slip.List, value slip.Object) {
 	ht, ok := args[1].(slip.HashTable)
 	if !ok {
 		slip.TypePanic(s, 0, "hash-table", args[1], "hash-table")
+	}
+	if !ht.Hashable(args[0]) {
+		slip.TypePanic(s, 0, "key", args[0], "hashable object")
 	}
 	ht[ht.Key(args[0])] = value
 }
